@@ -47,6 +47,9 @@ impl NodeClock {
 pub enum Want {
     /// control / command / data message on one of these message streams
     OnStreams { type_ids: &'static [u8], msids: Vec<u32> },
+    /// media whose stream the harness cannot pin down (the guiding model stopped following):
+    /// content exact, message stream one of these
+    MediaOn { type_id: u8, msids: Vec<u32>, ts: u32, len: usize, hash: u64, droppable: bool },
     /// exact media message
     Media { type_id: u8, msid: u32, ts: u32, len: usize, hash: u64, droppable: bool },
     /// anything returned by handle_input: on stream 0 or on a stream the call's input mentions
@@ -295,6 +298,9 @@ impl SrvNode {
                 let wire: Vec<Vec<u8>> = packets.iter().map(|p| p.bytes.clone()).collect();
                 let mut input_msids: Vec<u32> = in_msgs.iter().map(|(m, _)| m.msid).collect();
                 input_msids.push(0);
+                // a reaction may also address any stream this server has created: a command on
+                // stream 0 can refer to one by number (deleteStream), and servers answer there
+                input_msids.extend(self.c.known_sids.iter().copied());
                 let decoded = self.c.record(ctx, packets, &|_| Want::Reaction, &input_msids);
                 for m in decoded.iter() {
                     // remember stream ids handed out by createStream results
